@@ -23,3 +23,5 @@ mod result_test;
 
 pub use handler::{ShowCommandHandler, handle};
 pub use orchestrator::ShowExecutionPipeline;
+#[cfg(sneldb_verif)]
+pub use streaming::ShowResponseWriter;
